@@ -1309,7 +1309,11 @@ class MyPyAstVisitor:
                 module_qname,
                 f"{module_name}.*",
                 f"{module_qname}.*",
-            }
+            } or any(
+                # The key of a relative import starts at the package of the source, e.g. "from .sub._mod import *"
+                f"{source.id.replace('/', '.')}.{reexported_key}" in {module_qname, f"{module_qname}.*"}
+                for source in self.api.reexport_map[reexported_key]
+            )
 
             # Check if the function/class/module is reexported
             if reexported_key.endswith(name) or module_is_reexported:
@@ -1334,7 +1338,14 @@ class MyPyAstVisitor:
                             if (
                                 (
                                     (is_from_same_package and wildcard_import.module_name == module_name)
-                                    or (is_from_another_package and wildcard_import.module_name == module_qname)
+                                    or (
+                                        is_from_another_package
+                                        and module_qname
+                                        in {
+                                            wildcard_import.module_name,
+                                            f"{reexport_source.id.replace('/', '.')}.{wildcard_import.module_name}",
+                                        }
+                                    )
                                 )
                                 and not_internal
                                 and (isinstance(parent, Module) or parent.is_public)
